@@ -243,7 +243,10 @@ def gen(ctx, R):
     P = ctx.P
     f = P.func("scale.drange")
     R.saw(f)
-    ws = [n for n in f.node.body if isinstance(n, ast.While)]
+    from ..normalise import desugar_itertools
+
+    fbody, _ = desugar_itertools(f.node.body)  # takewhile(accumulate(repeat(step), initial=start)) is the same loop
+    ws = [n for n in fbody if isinstance(n, ast.While)]
     ok = False
     detail = "no while loop"
     if len(ws) == 1:
@@ -259,8 +262,8 @@ def gen(ctx, R):
         if var is None:
             detail = "loop test `%s` is not `r < stop`" % ntext(t)
         else:
-            inits = [s for s in f.node.body if isinstance(s, ast.Assign) and len(s.targets) == 1 and isinstance(s.targets[0], ast.Name) and s.targets[0].id == var]
-            init_ok = len(inits) == 1 and isinstance(inits[0].value, ast.Name) and inits[0].value.id == start_p and f.node.body.index(inits[0]) < f.node.body.index(w)
+            inits = [s for s in fbody if isinstance(s, ast.Assign) and len(s.targets) == 1 and isinstance(s.targets[0], ast.Name) and s.targets[0].id == var]
+            init_ok = len(inits) == 1 and isinstance(inits[0].value, ast.Name) and inits[0].value.id == start_p and fbody.index(inits[0]) < fbody.index(w)
             body = w.body
             ys = [i for i, s in enumerate(body) if isinstance(s, ast.Expr) and isinstance(s.value, ast.Yield) and isinstance(s.value.value, ast.Name) and s.value.value.id == var]
             incs = [i for i, s in enumerate(body) if (isinstance(s, ast.AugAssign) and isinstance(s.op, ast.Add) and isinstance(s.target, ast.Name) and s.target.id == var and isinstance(s.value, ast.Name) and s.value.id == step_p)
@@ -371,6 +374,16 @@ def precision(ctx, R):
                 okf = ka == "%s.format(X)" % key(fm) or (isinstance(applied, Template) and _flatten_template(applied) == text.replace("{", "").replace("}", ""))
                 if not okf:
                     detail = "label(x) is %s, not the plain fixed-point format of x" % show(applied, 160)
+        if fm is None:
+            # no stored template: the closure may format the tick with an f-string whose spec carries the decimals
+            dec = as_num(pexpr(ev, _st_with(ev, {"PREC": Num.atom("PREC")}), "max(0, PREC)"))
+            applied = ev.call(r, [Opaque("X")], {}, st)
+            if isinstance(applied, Template) and len(applied.parts) == 1 and applied.parts[0][0] == "hole":
+                h = applied.parts[0]
+                okf = key(h[1]) == "X" and h[2] == "f:.<%s>f" % dec.key()
+                detail = "label(x) formats %s with spec %s" % (key(h[1]), h[2])
+            else:
+                detail = "label(x) is %s" % show(applied, 160)
     R.check(okf, "C13.PRECISION", g.qual + " format", where(g), "labels are '{:.<max(0,precision)>f}'", "tick labels are not fixed-point with max(0, precision) decimals: %s" % detail)
     h = P.func("scale.LinearScale.tickFormat")
     ev = new_eval(P, inline_filter=lambda fn: fn.qual != g.qual)
